@@ -376,7 +376,9 @@ func (f *fwd) sendOne(i int) {
 			switch how := ch.Choose("sysprep", 4); {
 			case how == 2:
 				ri.kind = "prepare-system"
-				ri.req = c.Send("prepare", "", &message.Prepare{Query: qs[ch.Choose("sysq", 3)]}, nil)
+				// (some name a column the table does not have: answered with one error, nothing else)
+				sysPrep := append(append([]string{}, qs[:3]...), "SELECT no_such_column FROM system.local", "SELECT peer, nope FROM system.peers")
+				ri.req = c.Send("prepare", "", &message.Prepare{Query: sysPrep[ch.Choose("sysprepq", len(sysPrep))]}, nil)
 				f.w.Stat("probe.system_prepare_sent")
 			case how == 3 && len(f.sysPrepared[c]) > 0:
 				sp := f.sysPrepared[c][ch.Choose("sysprepwhich", len(f.sysPrepared[c]))]
